@@ -64,7 +64,7 @@ func NetConn(ctx context.Context, c *Conn, msgType MessageType) net.Conn {
 		// which briefly holds writeMu, for an active write.
 		nc.writeTimerMu.Lock()
 		defer nc.writeTimerMu.Unlock()
-		if staleExpiry(nc.writeTimer, nc.writeDeadline) {
+		if staleExpiry(nc.writeTimer, nc.writeDeadline) || atomic.LoadInt64(&nc.writeExpired) == 1 {
 			return
 		}
 		if !nc.writeMu.tryLock() {
@@ -87,7 +87,7 @@ func NetConn(ctx context.Context, c *Conn, msgType MessageType) net.Conn {
 	nc.readTimer = time.AfterFunc(math.MaxInt64, func() {
 		nc.readTimerMu.Lock()
 		defer nc.readTimerMu.Unlock()
-		if staleExpiry(nc.readTimer, nc.readDeadline) {
+		if staleExpiry(nc.readTimer, nc.readDeadline) || atomic.LoadInt64(&nc.readExpired) == 1 {
 			return
 		}
 		if !nc.readMu.tryLock() {
@@ -147,6 +147,9 @@ func (nc *netConn) Close() error {
 }
 
 func (nc *netConn) Write(p []byte) (int, error) {
+	if deadlinePassed(&nc.writeTimerMu, nc.writeTimer, &nc.writeDeadline, &nc.writeExpired) {
+		return 0, fmt.Errorf("failed to write: %w", context.DeadlineExceeded)
+	}
 	nc.writeMu.forceLock()
 	defer nc.writeMu.unlock()
 
@@ -162,6 +165,9 @@ func (nc *netConn) Write(p []byte) (int, error) {
 }
 
 func (nc *netConn) Read(p []byte) (int, error) {
+	if deadlinePassed(&nc.readTimerMu, nc.readTimer, &nc.readDeadline, &nc.readExpired) {
+		return 0, fmt.Errorf("failed to read: %w", context.DeadlineExceeded)
+	}
 	nc.readMu.forceLock()
 	defer nc.readMu.unlock()
 
@@ -227,6 +233,22 @@ func (nc *netConn) SetDeadline(t time.Time) error {
 	nc.SetWriteDeadline(t)
 	nc.SetReadDeadline(t)
 	return nil
+}
+
+// deadlinePassed reports whether a call that is about to start must fail because its deadline
+// passed while no call was active. Normally the timer callback has recorded that, but it runs on
+// its own goroutine: a call that starts after the deadline and before the callback must neither go
+// through nor be taken by the late callback for a call that was active when the deadline passed
+// (which would close the connection). So the expiry is recorded here, before the call takes its
+// lock, and the callback leaves a recorded expiry alone.
+func deadlinePassed(mu *sync.Mutex, t *time.Timer, deadline *time.Time, expired *int64) bool {
+	mu.Lock()
+	defer mu.Unlock()
+	if atomic.LoadInt64(expired) == 0 && !deadline.IsZero() && time.Until(*deadline) <= 0 {
+		t.Stop()
+		atomic.StoreInt64(expired, 1)
+	}
+	return atomic.LoadInt64(expired) == 1
 }
 
 // staleExpiry reports whether a timer callback belongs to a deadline that has since been
